@@ -1,9 +1,9 @@
 SPECIFICATION Spec
 CONSTANTS
-  Counts = {1, 2}
+  Counts = {2}
   RadCodes = {0, 8, 116}
-  MedCodes = {1, 2, 3, 4}
+  MedCodes = {1, 3, 4}
   ThkCodes = {2}
-  Cfgs = {1, 3, 8}
-INVARIANTS DistortionForms ImageSurfaceInert InvariantEverywhere SumsAreWelford ModelSatisfiesLaws StopShift LawsNotVacuous
+  Cfgs = {1, 2}
+INVARIANTS DistortionForms ImageSurfaceInert InvariantEverywhere SumsAreWelford ModelSatisfiesLaws StopShift StopShiftAstigDist LawsNotVacuous
 CHECK_DEADLOCK FALSE
